@@ -691,3 +691,38 @@ package compose
 //@     invariant[vs_kind] isStream ==> forall(m int :: 0 <= m && m < len(vs) ==> is(vs[m], "streamReader"))
 //@     invariant[vs_len] len(vs) >= len(nextNodeKeys) && fresh(vs)
 //@     invariant[sources] wcvSources(writeChannelValues, completedTasks, $i_1 + 1)
+
+// ---------------------------------------------------------------------------------------------------
+// graph_call_options.go, utils.go — call options (C16)
+// ---------------------------------------------------------------------------------------------------
+
+//@ func (Option).DesignateNodeWithPath
+//@   props C16 C09
+//@   ensures[len] len(result.paths) == len(o.paths) + len(path)
+//@   ensures[old_paths] forall(i int :: 0 <= i && i < len(o.paths) ==> result.paths[i] == old(o.paths[i]))
+//@   ensures[new_paths] forall(i int :: 0 <= i && i < len(path) ==> result.paths[len(o.paths) + i] == old(path[i]))
+//@   ensures[receiver_untouched] forall(i int :: 0 <= i && i < cap(o.paths) ==> mem(o.paths, i) == old(mem(o.paths, i)))
+//@   ensures[rest] result.options == o.options && result.handler == o.handler && result.maxRunSteps == o.maxRunSteps && result.checkPointID == o.checkPointID
+
+//@ func (Option).DesignateNode
+//@   props C16
+//@   ensures[len] len(result.paths) == len(o.paths) + len(key)
+//@   ensures[new_paths] forall(i int :: 0 <= i && i < len(key) ==> result.paths[len(o.paths) + i] != nil && len(result.paths[len(o.paths) + i].path) == 1 && result.paths[len(o.paths) + i].path[0] == key[i])
+//@   ensures[receiver_untouched] forall(i int :: 0 <= i && i < cap(o.paths) ==> mem(o.paths, i) == old(mem(o.paths, i)))
+//@   loop 1:
+//@     modifies elems(nKeys), fresh()
+//@     invariant[paths] forall(j int :: 0 <= j && j < $i ==> nKeys[j] != nil && fresh(nKeys[j]) && allocated(nKeys[j]) && allocated(nKeys[j].path) && len(nKeys[j].path) == 1 && nKeys[j].path[0] == key[j])
+
+//@ func (Option).deepCopy
+//@   props C16 C09
+//@   requires forall(i int :: 0 <= i && i < len(o.paths) ==> o.paths[i] != nil)
+//@   ensures[fresh] fresh(result.options) && fresh(result.handler) && fresh(result.paths)
+//@   ensures[lens] len(result.options) == len(o.options) && len(result.handler) == len(o.handler) && len(result.paths) == len(o.paths)
+//@   ensures[options] forall(i int :: 0 <= i && i < len(o.options) ==> result.options[i] == o.options[i])
+//@   ensures[handlers] forall(i int :: 0 <= i && i < len(o.handler) ==> result.handler[i] == o.handler[i])
+//@   ensures[paths] forall(i int :: 0 <= i && i < len(o.paths) ==> result.paths[i] != nil && fresh(result.paths[i]) && result.paths[i].path == o.paths[i].path)
+//@   ensures[steps] result.maxRunSteps == o.maxRunSteps
+//@   loop 1:
+//@     modifies elems(nPaths), fresh()
+//@     invariant[paths] forall(j int :: 0 <= j && j < $i ==> nPaths[j] != nil && fresh(nPaths[j]) && nPaths[j].path == o.paths[j].path)
+//@     invariant[kept] forall(j int :: 0 <= j && j < len(nOptions) ==> nOptions[j] == o.options[j]) && forall(j int :: 0 <= j && j < len(nHandler) ==> nHandler[j] == o.handler[j])
